@@ -804,9 +804,10 @@ class RFBClient(Protocol):  # type: ignore[misc]
     def _handleDecodeCORRERectangles(self, block: bytes, topx: int, topy: int) -> None:
         # ~ print("_handleDecodeCORRERectangle")
         pos = 0
+        end = len(block)
         sz = self.bypp + 4
-        format = "!{self.bypp}sBBBB"
-        while pos < sz:
+        format = f"!{self.bypp}sBBBB"
+        while pos < end:
             (color, x, y, width, height) = unpack(format, block[pos : pos + sz])
             self.fillRectangle(topx + x, topy + y, width, height, color)
             pos += sz
